@@ -11,7 +11,8 @@ import json, os, re, shutil, subprocess, sys, time
 
 cid, mid = sys.argv[1], sys.argv[2]
 extra = sys.argv[3:]
-src = f"/tmp/seed/out/{cid}/{mid}"
+rnd = os.environ.get("SEED_ROUND", "1")
+src = f"/tmp/seed/out{'' if rnd == '1' else rnd}/{cid}/{mid}"
 wt = f"/tmp/seed/eval-{cid}-{mid}"
 env = dict(os.environ, GOFLAGS="-mod=mod", GOPROXY="off")
 env.pop("GOTOOLCHAIN", None)
@@ -86,7 +87,7 @@ if confirmed:
         sh("git checkout -- .", cwd="/repo")
         sh("rm -rf /verif/replays/" + prop, cwd="/verif")
 
-dst = f"/verif/seeded/{prop}-{mid}"
+dst = f"/verif/seeded/{prop}-{mid}" if rnd == "1" else f"/verif/seeded/{prop}-r{rnd}{mid}"
 shutil.rmtree(dst, ignore_errors=True)
 os.makedirs(dst + "/demo")
 shutil.copy(patch, dst + "/patch.diff")
